@@ -1137,6 +1137,9 @@ func (ce *cenv) pseudo(name string, x *ast.CallExpr) (Val, bool) {
 		ex.declareFun("nl.mul", []string{sInt, sInt}, sInt)
 		a, b := arg(0), arg(1)
 		return Val{T: a.T, L: []string{app("nl.mul", a.L[0], b.L[0])}}, true
+	case "ctxTimeout": // ctxTimeout(ctx): the duration passed to the context.WithTimeout call that created ctx
+		ex.registerKey("X|ctx.timeout", arrSort(sInt, sInt))
+		return Val{T: types.Typ[types.Int64], L: []string{sel(ex.heapGet(ce.st, "X|ctx.timeout", arrSort(sInt, sInt)), arg(0).L[1])}}, true
 	case "done": // done(ctx): the context is cancelled / expired in the current state (monotone)
 		return boolVal(sel(ex.ctxDone(ce.st), arg(0).L[1])), true
 	case "cancelled": // cancelled(cancelFn): the context that this context.CancelFunc cancels is done
